@@ -8,6 +8,14 @@ Arguments rremove : simpl never.
 Arguments radd : simpl never.
 Arguments rcomment : simpl never.
 Arguments remove_all : simpl never.
+Arguments apply_events : simpl never.
+Arguments new_events : simpl never.
+Arguments track_new : simpl never.
+
+Lemma apply_events_cons m e es : apply_events m (e :: es) = apply_events (apply_event m e) es.
+Proof. reflexivity. Qed.
+Lemma apply_events_nil m : apply_events m [] = m.
+Proof. reflexivity. Qed.
 
 (** * Equality tests *)
 Lemma fam_eqb_spec a b : fam_eqb a b = true <-> a = b.
@@ -128,7 +136,8 @@ Lemma removals_apply m l : apply_events m (snd (fst (do_removals m l))) = fst (f
 Proof.
   revert m; induction l as [|p r IH]; intros m; simpl; auto.
   destruct (rhas m p).
-  - specialize (IH (rremove m p)). destruct (do_removals (rremove m p) r) as [[m' evs] unk]; simpl in *. exact IH.
+  - specialize (IH (rremove m p)). destruct (do_removals (rremove m p) r) as [[m' evs] unk]; simpl in *.
+    rewrite apply_events_cons. exact IH.
   - specialize (IH m). destruct (do_removals m r) as [[m' evs] unk]; simpl in *. exact IH.
 Qed.
 
@@ -280,7 +289,7 @@ Proof. unfold apply_events. rewrite fold_left_app. reflexivity. Qed.
 Lemma apply_new_events s c k :
   rget (apply_events s (new_events c)) k = if payload_eqb (rc_pl c) k then Some (rc_comment c) else rget s k.
 Proof.
-  unfold new_events. destruct (rc_comment c) as [x|] eqn:E; simpl.
+  unfold new_events. destruct (rc_comment c) as [x|] eqn:E; rewrite !apply_events_cons, apply_events_nil; simpl.
   - rewrite rget_rcomment, rget_radd. destruct (payload_eqb (rc_pl c) k); reflexivity.
   - rewrite rget_radd. destruct (payload_eqb (rc_pl c) k); reflexivity.
 Qed.
@@ -303,7 +312,8 @@ Proof.
     destruct HC as [Ha [cm [Hg Hne]]].
     specialize (IH dmj (rcomment s (rc_pl c) (rc_comment c))).
     destruct (do_additions res dmj r) as [[m' evs] e]; simpl in *.
-    unfold last_added in *. rewrite IH; auto.
+    rewrite apply_events_cons; simpl.
+    unfold last_added in *. cbn [find_last]. rewrite IH; auto.
     + destruct (find_last _ r); auto. rewrite rget_rcomment.
       destruct (payload_eqb (rc_pl c) k) eqn:E; auto.
       apply payload_eqb_spec in E; subst k.
@@ -315,10 +325,12 @@ Proof.
     destruct HC as [Ha Hg].
     specialize (IH (track_new dmj c) (apply_events s (new_events c))).
     destruct (do_additions res (track_new dmj c) r) as [[m' evs] e]; simpl in *.
-    rewrite <- apply_events_app. unfold last_added in *. rewrite IH; auto.
+    change (EvAdded (rc_pl c) :: match rc_comment c with Some _ => [EvComment (rc_pl c) (rc_comment c)] | None => [] end ++ evs)
+      with (new_events c ++ evs).
+    rewrite <- apply_events_app. unfold last_added in *. cbn [find_last]. rewrite IH; auto.
     + destruct (find_last _ r); auto. rewrite apply_new_events. destruct (payload_eqb (rc_pl c) k); reflexivity.
-    + intros k'. rewrite apply_new_events, rget_track_new, <- HK.
-      destruct (payload_eqb (rc_pl c) k'); reflexivity.
+    + intros k'. rewrite apply_new_events, rget_track_new.
+      destruct (payload_eqb (rc_pl c) k'); [reflexivity|apply HK].
 Qed.
 
 Lemma errs_empty_fields e : errs_empty e = true <-> e_dup e = [] /\ e_notheld e = [] /\ e_unknown e = [] /\ e_invalid e = [].
@@ -571,8 +583,8 @@ Qed.
 Lemma covered_up4 rs (x y : N) : 1 <= y ->
   covered (map up4 rs) (x * 2 ^ 96) (x * 2 ^ 96 + y * 2 ^ 96 - 1) = covered rs x (x + y - 1).
 Proof.
-  intros Hy. unfold covered. induction rs as [|r rs IH]; simpl; auto.
-  rewrite up4_covers by auto. rewrite IH. reflexivity.
+  intros Hy. unfold covered. induction rs as [|r rs IH]; [reflexivity|].
+  cbn [map existsb]. rewrite up4_covers by auto. rewrite IH. reflexivity.
 Qed.
 
 (** Cover by a block of the other family (the check does not look at the family). *)
@@ -586,12 +598,12 @@ Theorem contains_roa_address_decomposed res p :
   p_len p <= alen (p_fam p) ->
   contains_roa_address res p = holds_prefix res p || cross_family_cover res p.
 Proof.
-  intros Hl. unfold contains_roa_address, holds_prefix, cross_family_cover, lo128, hi128, plo, phi, shift_of.
+  intros Hl. unfold contains_roa_address, holds_prefix, cross_family_cover, hi128, lo128, plo, phi, shift_of.
   destruct p as [f a l]; simpl in *. destruct f; simpl in *.
   - change (128 - 32) with 96. rewrite (pow_shift_split l Hl).
     rewrite covered_up4; auto.
     assert (0 < 2 ^ (32 - l)) by (apply N.neq_0_lt_0, N.pow_nonzero; lia). lia.
-  - change (128 - 128) with 0. rewrite N.pow_0_r, N.mul_1_r. apply orb_comm.
+  - rewrite ?N.mul_1_r. apply orb_comm.
 Qed.
 
 Corollary held_prefix_passes_check res p :
